@@ -160,6 +160,23 @@ CLAIMED = {
               "every record itself and rejects any ill-posed request that came back as an array; per-class counts are "
               "reported and a class that was never generated is flagged as vacuous."),
         ref="4 C20, 3.9", technique="TLA+ predicates (Errors) + TLC trace validation of edited real calls"),
+    "C12": dict(
+        text=("A stateful TLA+ trace specification remembers the first observation of every call and requires each later one "
+              "to be identical; the same calls (corner-inclusive pads of face-connected arrays, get_metric with several "
+              "admissible partitions, Grid(ds) from parsed metadata incl. axis order, equivalence of renamed multi-name "
+              "signatures, multi-axis operators) are executed in K fresh interpreters under different PYTHONHASHSEED values "
+              "with the link table and metrics mapping inserted in permuted orders (quick K=4, thorough K=16); the set-iteration "
+              "orders actually produced are counted; each corner-inclusive pad must in addition equal the per-face assembly of "
+              "spec/FaceTopology.tla for SOME order of the padded axes."),
+        ref="4 C12, 3.3", technique="stateful TLC trace validation across interpreters with different hash seeds and table orders + TLA+ assembly model for halo corners"),
+    "C13": dict(
+        text=("No operator of the specification looks inside a name (names are uninterpreted strings in every module), so C13 "
+              "reduces to conformance under renaming: cases of eleven generators are executed with canonical names and under "
+              "injective renamings from an adversarial pool (single letters, names containing/contained in position words, "
+              "prefixes of each other, case variants, the library's own temporary names, length <= 12); TLC compares the "
+              "renamed record, labels mapped back, with the canonical one, and validates pool-named signatures, equivalences, "
+              "operator lookups and COMODO/SGRID datasets directly against the (name-agnostic) C15/C14 specifications."),
+        ref="4 C13", technique="TLC trace validation of renamed vs canonical executions against name-agnostic TLA+ specifications"),
 }
 
 PENDING_REASON = "check not built yet in this session (planned; see DESIGN.md section 9 build order)"
